@@ -181,7 +181,7 @@ fn search_body<const N: usize, const L: usize, const BUF: usize>(c05: bool, c06:
     assert!(list.is_exhaustive() && k <= N + 1);
     let data = list.data();
     assert!(data.len() == k);
-    kani::cover!(k == N + 1);
+    kani::cover!(k >= N);
     kani::cover!(k == 0);
     let i: usize = kani::any();
     kani::assume(i < k);
@@ -588,7 +588,7 @@ fn abs_rule_body(c05: bool, c06: bool) {
         Ok(z) => z,
         Err(_) => return,
     };
-    let mut buf: [Option<FoundDateTimeKind>; 8] = [None; 8];
+    let mut buf: [Option<FoundDateTimeKind>; 4] = [None; 4];
     let list = match DateTime::find_n(&mut buf, base, 1, 1, 0, 0, 0, NS, zone) {
         Ok(l) => l,
         Err(_) => {
